@@ -13,3 +13,4 @@ import Hls.Props.C07
 #print axioms Hls.C07.show_iv_free
 #print axioms Hls.C07.stripIv_spec
 #print axioms Hls.C07.stripIv_completeIv
+#print axioms Hls.C07.k7_counterexample
